@@ -219,7 +219,7 @@ def decodeSER (x : Ctx) (args : List Int) : Except Err (List Byte) :=
 
 /-- `DecodePBit` over `DecodeBitArg(1, 2)` → `DecodeBitArg2(address, bit)` for a literal address (no `SegIO`
 attribute): bit number `UInt3`, address `DataAdrIntType`, `ChkRange(Addr, 0, SegLimits[SegData])`,
-`BitSpec = Bit | (Addr & 0x1ff) << 3`; then `Adr = (BitSpec >> 3) & 0xffff`, `ChkRange(Adr, 0, 31)`.
+`BitSpec = Bit | (Addr & 0xffff) << 3` (repair 99afd52; `& 0x1ff` before it); then `Adr = (BitSpec >> 3) & 0xffff`, `ChkRange(Adr, 0, 31)`.
 (One argument = a bit symbol of the `BIT` statement: outside the model.) -/
 def decodePBit (x : Ctx) (code : Nat) (args : List Int) : Except Err (List Byte) :=
   match args with
@@ -227,8 +227,8 @@ def decodePBit (x : Ctx) (code : Nat) (args : List Int) : Except Err (List Byte)
     andThen (evalInt itPBit a2) fun bv => andThen (evalInt (dataAdrIntType x.p) a1) fun av =>
       if av > segLimitData x.p then .error .overRange
       else
-        let bit := toWord bv           -- `BitSpec & 7` of `BitSpec = Bit | (Addr & 0x1ff) << 3` (Bit ≤ 7)
-        let adr := av.toNat % 512      -- `(BitSpec >> 3) & 0xffff`: the nine address bits that were kept
+        let bit := toWord bv           -- `BitSpec & 7` of `BitSpec = Bit | (Addr & 0xffff) << 3` (Bit ≤ 7)
+        let adr := av.toNat % 65536    -- `(BitSpec >> 3) & 0xffff`: the sixteen address bits that were kept
         if adr > 31 then .error .overRange else .ok (appendCode (code ||| bit ||| (adr <<< 3)))
   | _ => .error .argCnt
 
